@@ -9,14 +9,14 @@ from __future__ import annotations
 import ast
 from ..model import qual
 from ..symx import Expander
-from ..anf import R
+from ..anf import R, Unsupported
 from .. import anf, lints
 from .common import struct_ob, formula_ob, guard, last_return, U
 from . import mcmc
 from ..report import AnalysisError
-from ..term import Resolver, pmatch, abstract
+from ..term import Resolver, pmatch, abstract, anf_of
 
-FLOORS = {"subset-selection": 1, "rows-stored-with-own-probability": 10, "columns-commit-together": 4, "slice-form": 9, "no-squeeze": 9, "parallel-arrays": 1, "interval-cut": 1,
+FLOORS = {"trim-count": 1, "subset-selection": 1, "rows-stored-with-own-probability": 10, "columns-commit-together": 4, "slice-form": 9, "no-squeeze": 9, "parallel-arrays": 1, "interval-cut": 1,
           "none-value": 1, "marginal-passthrough": 1}
 GETTER_CLASSES = ("MetropolisChain", "HamiltonianChain", "EnsembleSampler")
 GETTERS = ("get_parameter", "get_probabilities", "get_sample")
@@ -148,6 +148,81 @@ def _commit_together(prog, cname, unroll):
                f"{bad[2][2]} (line {bad[2][1]}): if it raises, the step is half recorded and the columns stay misaligned")
     return struct_ob("columns-commit-together", qual(c, fn) + (f"[{cname}]" if c.name != cname else ""), bad is None, msg,
                      c.module.relpath, fn.lineno, slots={"paths": len(paths), "stores_on_path": n_store, "user_calls_on_path": n_user})
+
+
+def _trim_count(prog, c, fn, rz, names):
+    """`samples` rows at most: the statement that trims the selected fraction keeps `count` rows out of `size`, where
+    size - (rows dropped) = samples, and it is guarded by a test that holds whenever size > samples."""
+    rel = c.module.relpath
+    pname = names[1]
+    reqs = [a.arg for a in fn.args.args if a.arg not in ("self", "interval", "burn", "thin")]
+    req = reqs[-1] if reqs else "samples"
+    trims = []
+
+    def visit(stmts, conds):
+        for st in stmts:
+            if isinstance(st, ast.If):
+                visit(st.body, conds + [(st.test, True)])
+                visit(st.orelse, conds + [(st.test, False)])
+            elif isinstance(st, ast.Assign) and len(st.targets) == 1 and isinstance(st.targets[0], ast.Name) and st.targets[0].id == pname:
+                t = rz.term(st.value, st, keep=names)
+                b = None
+                for pt in (f"{pname}[sorted(permutation(_n)[_a:])]", f"{pname}[permutation(_n)[_a:]]", f"{pname}[sorted(permutation(_n)[:_k])]",
+                           f"{pname}[permutation(_n)[:_k]]", f"{pname}[sorted(choice(_n, size=_k, replace=False))]",
+                           f"{pname}[choice(_n, size=_k, replace=False)]"):
+                    b = pmatch(t, pt)
+                    if b is not None:
+                        break
+                if b is not None:
+                    trims.append((st, b, conds))
+    visit(fn.body, [])
+    if len(trims) != 1:
+        if not trims:
+            return struct_ob("trim-count", qual(c, fn), True, "", rel, fn.lineno, slots={"trims": 0}, nontrivial=False)
+        raise AnalysisError(f"trim-count: {len(trims)} random trims of `{pname}` in {qual(c, fn)}")
+    st, b, conds = trims[0]
+    ABS = [(f"{pname}.size", "SIZE"), (f"len({pname})", "SIZE"), (f"{pname}.shape[0]", "SIZE")]
+    why = []
+    try:
+        n_ = anf_of(abstract(ast.parse(b["_n"], mode="eval").body, ABS)[0])
+        if not n_.eq(R.sym("SIZE")):
+            why.append(f"the indices are drawn from range({b['_n']}), not from the rows present")
+        if "_a" in b:
+            kept = R.sym("SIZE") - anf_of(abstract(ast.parse(b["_a"], mode="eval").body, ABS)[0])
+        else:
+            kept = anf_of(abstract(ast.parse(b["_k"], mode="eval").body, ABS)[0])
+        if not kept.eq(R.sym(req)):
+            why.append(f"the trim keeps {kept} rows, not `{req}`")
+        # the guard: holds whenever SIZE - req > 0
+        guard_ok = False
+        for test, truth in conds:
+            t = rz.term(test, rz.stmt_of(test), keep=names)
+            k = 0
+            while isinstance(t, ast.UnaryOp) and isinstance(t.op, ast.Not):
+                t, k = t.operand, k + 1
+            tr = truth if k % 2 == 0 else not truth
+            if isinstance(t, ast.Compare) and len(t.ops) == 1:
+                l_ = anf_of(abstract(t.left, ABS)[0])
+                r_ = anf_of(abstract(t.comparators[0], ABS)[0])
+                o_ = type(t.ops[0]).__name__
+                if not tr:
+                    o_ = {"Gt": "LtE", "GtE": "Lt", "Lt": "GtE", "LtE": "Gt"}.get(o_, o_)
+                d_ = (l_ - r_) if o_ in ("Gt", "GtE") else (r_ - l_) if o_ in ("Lt", "LtE") else None
+                # d > 0 (or >= 0) must be implied by SIZE - req > 0:  d = SIZE - req  (or, for >=, also SIZE - req - 1 .. )
+                if d_ is not None and (d_.eq(R.sym("SIZE") - R.sym(req)) or (o_ in ("GtE", "LtE") and d_.eq(R.sym("SIZE") - R.sym(req) - 1))):
+                    guard_ok = True
+        for test, truth in conds:
+            tt = U(test)
+            if (tt == f"{req} is None" and truth) or (tt == f"{req} is not None" and not truth) or (tt == f"not {req} is not None" and truth):
+                why.append(f"the trim sits on the path where `{req}` is None: it never runs when a number of rows is requested")
+        if not guard_ok:
+            why.append(f"the trim is not performed under a test equivalent to `{pname}.size > {req}`: "
+                       f"{[('' if tr_ else 'not ') + U(t_)[:40] for t_, tr_ in conds if not ('is None' in U(t_) or 'is not None' in U(t_))]}")
+    except Unsupported as e:
+        raise AnalysisError(f"trim-count: {e}")
+    return struct_ob("trim-count", qual(c, fn), not why,
+                     f"when a number of rows is requested, at most that many are returned: " + "; ".join(why), rel, st.lineno,
+                     slots={"requested": req, "trim": U(st.value)[:120]})
 
 
 def _slice_form(c, fn, st, gname):
@@ -310,6 +385,8 @@ def _parallel(prog, c, fn):
     out.append(struct_ob("subset-selection", qual(c, fn), not definite,
                          f"the rows returned must be a subset of the requested fraction: `{definite[0][0][:160]}` {definite[0][1]}" if definite else "",
                          rel, fn.lineno, slots={"selections": [o[1] for o in ns if o[0] == "idx"]}))
+    # at most the requested number of rows: the random trim keeps exactly `samples` rows and happens whenever there are more
+    out.append(_trim_count(prog, c, fn, rz, names))
     # the cut: ascending argsort of probs, then keep [cutoff:], cutoff = int(size * (1 - interval))
     idxs = [o[1] for o in ns if o[0] == "idx"]
     okc, why = False, ""
